@@ -180,22 +180,26 @@ Section WithNestedWalks.
         end
     end.
 
-  (** one pass through the body of [while chain:] for the Deferred [cur] on top of the chain list.
+  (** what the walk does next with its chain list *)
+  Inductive nxt :=
+  | NPop               (* [chain.pop()]: current is paused, finished, or has started waiting *)
+  | NStay              (* go on with the inner [while current.callbacks:] loop *)
+  | NPush (c : nat).   (* [chain.append(chainee)] *)
+
+  (** one pass through the loop body for the Deferred [cur] on top of the chain list.
       [chk]: we are at the top of the outer loop ([if current.paused: ...] is tested); [false]: we are continuing the
       inner [while current.callbacks:] loop, which does NOT look at [paused] again — a pause()/unpause() of the running
       Deferred from inside its own callback takes effect only when the walk next comes back to it.
-      Result: state, chain list, whether the next pass starts at the top of the outer loop, events.
       [None] = a nested walk ran out of fuel. *)
-  Definition step_r (chk : bool) (s : rst) (cur : nat) (rest : list nat)
-    : option (rst * list nat * bool * list ev) :=
+  Definition step_r (chk : bool) (s : rst) (cur : nat) : option (rst * nxt * list ev) :=
     let h := rheap_of s in
     match rget h cur with
-    | None => Some (s, rest, true, [])
+    | None => Some (s, NPop, [])
     | Some D =>
-      if chk && negb (Z.eqb (rpaused D) 0) then Some (s, rest, true, [])
+      if chk && negb (Z.eqb (rpaused D) 0) then Some (s, NPop, [])
       else
         match rcbs D with
-        | [] => Some (s, rest, true, [])
+        | [] => Some (s, NPop, [])
         | item :: more =>
           let h0 := rupd h cur (rset_cbs more) in
           let r := rcur_result D in
@@ -204,7 +208,7 @@ Section WithNestedWalks.
               let h1 := rupd h0 c (rset_res (Some r)) in
               let h2 := rupd h1 cur (rset_res (Some VNone)) in
               let h3 := rupd h2 c (fun C => rset_paused (rpaused C - 1)%Z C) in
-              Some (with_heap s h3, c :: cur :: rest, true, [])
+              Some (with_heap s h3, NPush c, [])
           | RPair k cb eb =>
               let side := if is_fail r then eb else cb in
               (* the callback call: guard set, script, guard cleared, return value / exception *)
@@ -227,19 +231,19 @@ Section WithNestedWalks.
                   match r' with
                   | VDef x =>
                       match rget h1 x with
-                      | None => Some (with_heap s2 h1, cur :: rest, false, evs)
+                      | None => Some (with_heap s2 h1, NStay, evs)
                       | Some X =>
                           if rwaiting X
                           then
                             let h2 := rupd h1 cur (fun D => rset_paused (rpaused D + 1)%Z D) in
                             let h3 := rupd h2 x (fun X => rset_cbs (rcbs X ++ [RCont cur]) X) in
-                            Some (with_heap s2 h3, rest, true, evs)
+                            Some (with_heap s2 h3, NPop, evs)
                           else
                             let h2 := rupd h1 x (rset_res (Some VNone)) in
                             let h3 := rupd h2 cur (rset_res (rres X)) in
-                            Some (with_heap s2 h3, cur :: rest, false, evs)
+                            Some (with_heap s2 h3, NStay, evs)
                       end
-                  | _ => Some (with_heap s2 h1, cur :: rest, false, evs)
+                  | _ => Some (with_heap s2 h1, NStay, evs)
                   end
               end
           end
@@ -247,6 +251,7 @@ Section WithNestedWalks.
     end.
 End WithNestedWalks.
 
+(** the iterative loop: an explicit chain list, top first *)
 Fixpoint walk_from (fuel : nat) (chk : bool) (s : rst) (chain : list nat) {struct fuel} : option (rst * list ev) :=
   match fuel with
   | O => None
@@ -254,10 +259,14 @@ Fixpoint walk_from (fuel : nat) (chk : bool) (s : rst) (chain : list nat) {struc
       match chain with
       | [] => Some (s, [])
       | cur :: rest =>
-          match step_r (walk_from f true) chk s cur rest with
+          match step_r (walk_from f true) chk s cur with
           | None => None
-          | Some (s', chain', chk', evs) =>
-              match walk_from f chk' s' chain' with
+          | Some (s', n, evs) =>
+              match (match n with
+                     | NPop => walk_from f true s' rest
+                     | NStay => walk_from f false s' (cur :: rest)
+                     | NPush c => walk_from f true s' (c :: cur :: rest)
+                     end) with
               | None => None
               | Some (s'', l) => Some (s'', evs ++ l)
               end
@@ -277,8 +286,8 @@ Inductive rop :=
 | ROUnpause (d : nat)
 | ROCancel (d : nat).
 
-Definition exec_r (fuel : nat) (s : rst) (o : rop) : option (rst * list ev) :=
-  let w := walk fuel in
+(** a top-level operation, given the function that performs a complete nested walk *)
+Definition exec_w (w : rst -> list nat -> option (rst * list ev)) (s : rst) (o : rop) : option (rst * list ev) :=
   let fire_top d v :=
     match fire_r w s d v ByUser with
     | None => None
@@ -301,15 +310,20 @@ Definition exec_r (fuel : nat) (s : rst) (o : rop) : option (rst * list ev) :=
       end
   end.
 
-Fixpoint run_r (fuel : nat) (s : rst) (ops : list rop) : option (rst * list (list ev)) :=
+Fixpoint run_w (w : rst -> list nat -> option (rst * list ev)) (s : rst) (ops : list rop)
+  : option (rst * list (list ev)) :=
   match ops with
   | [] => Some (s, [])
   | o :: r =>
-      match exec_r fuel s o with
+      match exec_w w s o with
       | None => None
-      | Some (s1, l) => match run_r fuel s1 r with None => None | Some (s2, ls) => Some (s2, l :: ls) end
+      | Some (s1, l) => match run_w w s1 r with None => None | Some (s2, ls) => Some (s2, l :: ls) end
       end
   end.
+
+(** the model of the code: nested walks are the iterative loop *)
+Definition exec_r (fuel : nat) : rst -> rop -> option (rst * list ev) := exec_w (walk fuel).
+Definition run_r (fuel : nat) : rst -> list rop -> option (rst * list (list ev)) := run_w (walk fuel).
 
 Definition rinit (cs : list canceller) : rst := mkRS (map new_rdfr cs) 0.
 Definition rprogram := (list canceller * list rop)%type.
